@@ -310,7 +310,9 @@ class SymEval:
                 return ("param", name)
             val = self.cfg.def_value(d, name)
             if (name + "[]") in self._all_defs or name in self._mutated:
-                val = None  # elements are stored into the object later: its defining expression no longer describes it
+                val = None
+            if val is not None and _mentions(val, name):
+                val = None  # x = x + 1 is an update of x (like x += 1), not a definition in terms of other values  # elements are stored into the object later: its defining expression no longer describes it
             if val is not None and depth < self.max_depth and nd.kind == "stmt" and isinstance(nd.ast, (
                     ast.Assign, ast.AnnAssign)):
                 vt = self.term(val, d, depth + 1)
@@ -355,7 +357,7 @@ class SymEval:
                     return ("self", e.attr)
                 if defs:
                     r = self._resolve_var(pv, at, depth)
-                    if r is not None and r[0] != "var":
+                    if r is not None and not (r[0] == "var" and r[1] == pv):
                         return r
                     return ("var", pv, defs)
                 return ("self", e.attr)
@@ -536,6 +538,14 @@ def _is_draw(f: Term) -> bool:
         if parts[-1] in _DRAW_METHODS and parts[0] in ("numpy", "random", "torch"):
             return True
     return False
+
+
+def _mentions(e: ast.AST, name: str) -> bool:
+    if "." in name:
+        base, attr = name.split(".", 1)
+        return any(isinstance(y, ast.Attribute) and y.attr == attr and isinstance(y.value, ast.Name) and y.value.id == base
+                   for y in ast.walk(e))
+    return any(isinstance(y, ast.Name) and y.id == name for y in ast.walk(e))
 
 
 def _canon_sign(p: Poly) -> Term:
